@@ -264,5 +264,23 @@ def add_obligations(out, prop, work=None):
             items.append({"obligation": name, "detail": f"{c.get('function')}: {driver.norm_ws(c.get('description', ''))[:300]}",
                           "program_text": "generator helper in the annotated copy of /repo/bitbybit/src", "inputs": None, "src": None,
                           "verifier_output": {"failed_checks": [{k: c2.get(k) for k in ("function", "description", "category", "location")} for c2 in failed[:5]]}})
+    if prop == "C14":
+        # unbounded: the real function text, re-extracted, with Verus clauses inserted at anchors (vlib/verusgen.py)
+        from . import verusgen
+        vr = verusgen.run(os.path.join(work, "verusgen"))
+        name = "C14/verus/ranges_have_self_overlap (all numbers of ranges and array elements)"
+        if vr["status"] == "undecided":
+            out.notes.append("Verus proof of ranges_have_self_overlap UNDECIDED in this run (" + vr["detail"][:200] + "); the bounded GEN harnesses above stand")
+            out.extra["verus_selfoverlap"] = "undecided"
+        else:
+            ok = vr["status"] == "proved"
+            out.add_ob(name, "gen-unbounded", "Verus/Z3 on the re-extracted real function text", ok)
+            out.functions.add("bitbybit::ranges_have_self_overlap [Verus, unbounded]")
+            out.solver_s += (vr.get("ms") or 0) / 1000.0
+            out.extra["verus_selfoverlap"] = vr["status"]
+            if not ok:
+                items.append({"obligation": name, "detail": "Verus rejects the postcondition `result <=> two distinct (element, range) pairs share a bit` for the real function text",
+                              "program_text": "fn ranges_have_self_overlap of /repo/bitbybit/src/bitfield/codegen.rs with the clauses of vlib/verusgen.py inserted",
+                              "verifier_output": {"verus": vr["detail"][:2500]}, "inputs": None, "src": None})
     if items:
         driver.report_violations(out, items, kind="gen")
